@@ -259,6 +259,21 @@ const LOAD_FACTOR_NUMERATOR : usize = 3 ;
 const LOAD_FACTOR_DENOMINATOR : usize = 4 ;
 
 
+enum ErrorType {
+NoFalseNegatives , NoFalsePositives , }
+
+
+struct Row < T > {
+item : T , estimate : u64 , upper_bound : u64 , lower_bound : u64 , }
+
+
+// R15: `rows.sort_by_key(|row| std::cmp::Reverse(row.estimate))` -- std sort leaf: a permutation, descending by estimate
+#[verifier::external_body]
+fn vx_sort_rows_desc<T>(rows: &mut Vec<Row<T>>)
+  ensures final(rows)@.to_multiset() == old(rows)@.to_multiset(),
+    forall|i: int, j: int| 0 <= i <= j < final(rows)@.len() ==> final(rows)@[i].estimate >= final(rows)@[j].estimate,
+{ rows.sort_by_key(|row| std::cmp::Reverse(row.estimate)); }
+
 #[verifier::reject_recursive_types(T)]
 struct FrequentItemsSketch < T > {
 lg_max_map_size : u8 , cur_map_cap : usize , offset : u64 , stream_weight : u64 , sample_size : usize , hash_map : ReversePurgeItemHashMap < T > , }
@@ -447,6 +462,108 @@ assert ( other . lb_spec ( x ) <= truth ( h2 , x ) <= other . ub_spec ( x ) ) ;
 }
 
 
+    spec fn thr(&self, threshold: u64) -> u64 { if threshold >= self.offset { threshold } else { self.offset } }
+    // the selection criterion of a row
+    spec fn selected(&self, e: ErrorType, t: u64, x: T) -> bool {
+        self.hash_map.val(x) > 0 && (match e { ErrorType::NoFalseNegatives => self.ub_spec(x) > t, ErrorType::NoFalsePositives => self.lb_spec(x) > t })
+    }
+    spec fn row_ok(&self, e: ErrorType, t: u64, row: Row<T>) -> bool {
+        &&& self.selected(e, t, row.item)
+        &&& row.lower_bound == self.lb_spec(row.item) && row.upper_bound == self.ub_spec(row.item) && row.estimate == row.upper_bound
+    }
+
+    fn frequent_items_with_threshold ( & self , error_type : ErrorType , threshold : u64 , ) -> ( rows : Vec < Row < T >> ) where T : Clone , requires self . wf ( ) , ensures
+/*@C07.rows_bounds*/ forall | i : int | 0 <= i < rows @ . len ( ) ==> # [ trigger ] self . row_ok ( error_type , self . thr ( threshold ) , rows @ [ i ] ) ,
+/*@C07.rows_complete*/ forall | x : T | # [ trigger ] self . selected ( error_type , self . thr ( threshold ) , x ) ==> exists | i : int | 0 <= i < rows @ . len ( ) && # [ trigger ] rows @ [ i ] . item == x ,
+/*@C07.nfp*/ error_type is NoFalsePositives ==> forall | h : Seq < ( T , u64 ) > , i : int | # [ trigger ] self . models ( h ) && 0 <= i < rows @ . len ( ) ==> truth ( h , # [ trigger ] rows @ [ i ] . item ) > self . thr ( threshold ) ,
+/*@C07.nfn*/ error_type is NoFalseNegatives ==> forall | h : Seq < ( T , u64 ) > , x : T | # [ trigger ] self . models ( h ) && # [ trigger ] truth ( h , x ) > self . thr ( threshold ) ==> exists | i : int | 0 <= i < rows @ . len ( ) && # [ trigger ] rows @ [ i ] . item == x , forall | i : int , j : int | 0 <= i <= j < rows @ . len ( ) ==> rows @ [ i ] . estimate >= rows @ [ j ] . estimate , {
+let threshold = threshold . max ( self . offset ) ;
+let mut rows = vec! [ ] ;
+let ghost mut seen : Set < T > = Set :: empty ( ) ;
+let ghost ks = self . hash_map . keys @ ;
+let ghost vs = self . hash_map . values @ ;
+let ghost st = self . hash_map . states @ ;
+let mut vx_it1 = self . hash_map . iter ( ) ;
+loop invariant self . wf ( ) , vx_it1 . inv ( ) , * vx_it1 . map == self . hash_map , ks == self . hash_map . keys @ , vs == self . hash_map . values @ , st == self . hash_map . states @ , iter_link ( ks , vs , st , vx_it1 . yielded ( ) , seen ) ,
+/*@C07.rows_bounds*/ forall | i : int | 0 <= i < rows @ . len ( ) ==> # [ trigger ] self . row_ok ( error_type , threshold , rows @ [ i ] ) ,
+/*@C07.rows_complete*/ forall | x : T | seen . contains ( x ) && # [ trigger ] self . selected ( error_type , threshold , x ) ==> exists | i : int | 0 <= i < rows @ . len ( ) && # [ trigger ] rows @ [ i ] . item == x , ensures forall | k : T | fholds ( ks , st , k ) ==> seen . contains ( k ) , decreases focc ( st ) . len ( ) - vx_it1 . yielded ( ) . len ( ) {
+let ghost it0 = vx_it1 ;
+match vx_it1 . next ( ) {
+Some ( ( item , count ) ) => {
+let ghost rows0 = rows @ ;
+proof {
+lemma_iter_step ( ks , vs , st , it0 . yielded ( ) , seen , vx_it1 . index as int , * item ) ;
+lemma_val_le_sum ( self . hash_map , * item ) ;
+}
+let lower = count ;
+let upper = count + self . offset ;
+let include = match error_type {
+ErrorType :: NoFalseNegatives => upper > threshold , ErrorType :: NoFalsePositives => lower > threshold , }
+;
+if include {
+rows . push ( Row {
+item : vx_clone ( item ) , estimate : upper , upper_bound : upper , lower_bound : lower , }
+) ;
+}
+proof {
+let ghost seen0 = seen ;
+seen = seen0 . insert ( * item ) ;
+assert forall | i : int | 0 <= i < rows @ . len ( ) implies # [ trigger ] self . row_ok ( error_type , threshold , rows @ [ i ] ) by {
+if i < rows0 . len ( ) {
+assert ( rows @ [ i ] == rows0 [ i ] ) ;
+}
+}
+assert forall | x : T | seen . contains ( x ) && # [ trigger ] self . selected ( error_type , threshold , x ) implies exists | i : int | 0 <= i < rows @ . len ( ) && # [ trigger ] rows @ [ i ] . item == x by {
+if x == * item {
+assert ( rows @ [ rows @ . len ( ) - 1 ] . item == x ) ;
+}
+else {
+let i = choose | i : int | 0 <= i < rows0 . len ( ) && # [ trigger ] rows0 [ i ] . item == x ;
+assert ( rows @ [ i ] . item == x ) ;
+}
+}
+}
+}
+None => {
+proof {
+lemma_iter_done ( ks , vs , st , it0 . yielded ( ) , seen ) ;
+}
+break ;
+}
+}
+}
+let ghost rows1 = rows @ ;
+vx_sort_rows_desc ( & mut rows ) ;
+proof {
+lemma_perm_rows ( rows1 , rows @ ) ;
+assert forall | i : int | 0 <= i < rows @ . len ( ) implies # [ trigger ] self . row_ok ( error_type , threshold , rows @ [ i ] ) by {
+assert ( rows1 . contains ( rows @ [ i ] ) ) ;
+let j = choose | j : int | 0 <= j < rows1 . len ( ) && rows1 [ j ] == rows @ [ i ] ;
+assert ( self . row_ok ( error_type , threshold , rows1 [ j ] ) ) ;
+}
+assert forall | x : T | # [ trigger ] self . selected ( error_type , threshold , x ) implies exists | i : int | 0 <= i < rows @ . len ( ) && # [ trigger ] rows @ [ i ] . item == x by {
+assert ( fholds ( ks , st , x ) ) ;
+let j = choose | j : int | 0 <= j < rows1 . len ( ) && # [ trigger ] rows1 [ j ] . item == x ;
+assert ( rows @ . contains ( rows1 [ j ] ) ) ;
+let i = choose | i : int | 0 <= i < rows @ . len ( ) && rows @ [ i ] == rows1 [ j ] ;
+assert ( rows @ [ i ] . item == x ) ;
+}
+if error_type is NoFalseNegatives {
+assert forall | h : Seq < ( T , u64 ) > , x : T | # [ trigger ] self . models ( h ) && # [ trigger ] truth ( h , x ) > threshold implies exists | i : int | 0 <= i < rows @ . len ( ) && # [ trigger ] rows @ [ i ] . item == x by {
+assert ( self . lb_spec ( x ) <= truth ( h , x ) <= self . ub_spec ( x ) ) ;
+assert ( self . selected ( error_type , threshold , x ) ) ;
+}
+}
+if error_type is NoFalsePositives {
+assert forall | h : Seq < ( T , u64 ) > , i : int | # [ trigger ] self . models ( h ) && 0 <= i < rows @ . len ( ) implies truth ( h , # [ trigger ] rows @ [ i ] . item ) > threshold by {
+assert ( self . row_ok ( error_type , threshold , rows @ [ i ] ) ) ;
+assert ( self . lb_spec ( rows @ [ i ] . item ) <= truth ( h , rows @ [ i ] . item ) ) ;
+}
+}
+}
+rows }
+
+
     fn maybe_resize_or_purge ( & mut self ) requires old ( self ) . wf_but ( 1 ) , ensures final ( self ) . wf ( ) , final ( self ) . stream_weight == old ( self ) . stream_weight , final ( self ) . lg_max_map_size == old ( self ) . lg_max_map_size ,
 /*@C18.fi_capacity*/ final ( self ) . hash_map . num_active <= cap_of ( final ( self ) . lg_max_map_size ) ,
 /*@C07.purge_keeps_bracket*/ forall | h : Seq < ( T , u64 ) > | # [ trigger ] old ( self ) . models ( h ) ==> final ( self ) . models ( h ) , {
@@ -511,6 +628,22 @@ proof fn lemma_iter_step<T>(ks: Seq<Option<T>>, vs: Seq<u64>, st: Seq<u16>, y: S
     assert(s2.subset_of(hkeys(ks, st)));
     lemma_ssum_le(s2, hkeys(ks, st), valf(ks, vs, st), valf(ks, vs, st));
     vstd::set_lib::lemma_len_subset(y2, focc(st));
+}
+// a permutation has the same elements
+proof fn lemma_perm_rows<A>(a: Seq<A>, b: Seq<A>)
+  requires a.to_multiset() == b.to_multiset()
+  ensures forall|i: int| 0 <= i < b.len() ==> a.contains(#[trigger] b[i]),
+    forall|j: int| 0 <= j < a.len() ==> b.contains(#[trigger] a[j]),
+{
+    a.to_multiset_ensures(); b.to_multiset_ensures();
+    assert forall|i: int| 0 <= i < b.len() implies a.contains(#[trigger] b[i]) by {
+        assert(b.contains(b[i]));
+        assert(a.to_multiset().count(b[i]) > 0);
+    }
+    assert forall|j: int| 0 <= j < a.len() implies b.contains(#[trigger] a[j]) by {
+        assert(a.contains(a[j]));
+        assert(b.to_multiset().count(a[j]) > 0);
+    }
 }
 proof fn lemma_iter_done<T>(ks: Seq<Option<T>>, vs: Seq<u64>, st: Seq<u16>, y: Set<int>, seen: Set<T>)
   requires iter_link(ks, vs, st, y, seen), y =~= focc(st),
